@@ -18,7 +18,43 @@ def oracle(d):
     return None
 
 
+def bundled(ctx, res):
+    """the real-world exports shipped with the library: model vs parse_musicxml, and the infoset oracle"""
+    import parsing, lib, os
+    files = ['test_hello_world.xml', 'test_bach_partita_3_reduced_created.xml']
+    if ctx.tier == 'thorough':
+        files.append('test_bach_partita_3.xml')
+    base = os.path.join(os.environ.get('MUSICXML_REPO', '/repo'), 'musicxml', 'parser')
+    drv = lib.Driver()
+    done = []
+    try:
+        for f in files:
+            p = os.path.join(base, f)
+            if not os.path.exists(p):
+                continue
+            c = parsing.compare_file(drv, p)
+            done.append({'file': f, 'status': c['status']})
+            if c['status'] == 'disagree':
+                res['violations'].append({'replay': {'property': 'C09', 'kind': 'property-violated-on-real-code' if (c.get('real') or '').startswith('err') else 'correspondence-broken',
+                                                     'file': f, 'model': c.get('model'), 'real': c.get('real'),
+                                                     'what_fails': 'bundled real-world file %s: library %s, model %s' % (f, c.get('real'), c.get('model'))}})
+            elif c.get('real_text'):
+                d = parsing.roundtrip_oracle(open(p, 'rb').read(), c['real_text'])
+                if d:
+                    res['violations'].append({'replay': {'property': 'C09', 'kind': 'property-violated-on-real-code', 'file': f,
+                                                         'what_fails': 'round trip of %s changes the document: %s' % (f, d)}})
+    finally:
+        drv.close()
+    res['coverage']['bundled_files'] = done
+    res['evaluations'] += len(done)
+    return res
+
+
 def run(ctx):
+    return bundled(ctx, _run(ctx))
+
+
+def _run(ctx):
     return ec.generic(ctx, 'C09', OPTS, n_quick=(16, 30), n_thorough=(64, 120), with_values=False, with_parse=True, oracle=oracle)
 
 
